@@ -3,6 +3,15 @@ C14, second half (RightReason): the AgentLife design model (exhaustive TLC), TLC
 behaviours of the model replayed as event sequences into the real Agent_0,
 small-scope exhaustive and seeded random event sequences, every recorded trace
 validated by the AgentLifeTrace monitor.
+
+Faults DURING termination (OneFinalState): finalize() runs steps before it
+publishes (stage_output with the real tar, usage report, log tails).  The model
+chooses which steps fail (FinBegin(F)) and lets commands arrive while they run;
+the rig turns F into what the sandbox holds / which helper raises (every kind
+of fault x every termination cause is enumerated, TLC behaviours and random
+scripts draw kinds at random).  Verdicts come from REAL conditions only (real tar
+exiting non-zero, unreadable log tails, commands arriving meanwhile); runs in which
+a helper is made to raise OSError (OS resource exhaustion) yield notes N.*.
 '''
 
 import re
@@ -14,17 +23,21 @@ from .. import tlc, tracecheck
 from ..core import Machinery
 from ..rigs import agentlife_rig as A
 
-INVARIANTS = ['TypeOK', 'InvRightReason', 'InvSignal', 'InvBoot']
+INVARIANTS = ['TypeOK', 'InvOneFinalState', 'InvRightReason', 'InvSignal', 'InvBoot']
 PROPERTIES = ['ActOthersIgnored', 'ActNotBeforeTime']
-DEVS       = ['DevStopOverwrites', 'DevLateOverwrites']
+DEVS       = ['DevStopOverwrites', 'DevLateOverwrites']          # cause bookkeeping
+DEVS_ALL   = DEVS + ['DevFinAbort']
+EXPECT     = {'DevStopOverwrites': 'InvRightReason', 'DevLateOverwrites': 'InvRightReason',
+              'DevFinAbort': 'InvOneFinalState'}
+NFIN       = 3           # steps of finalize before the publication: 1 stage, 2 rusage, 3 tails
 
 IDS = {'p0': A.ME, 'p1': A.OTHERS[0], 'p2': A.OTHERS[1]}
 
 
 def mc_cfg(runtime, devs=(), maxnow=3, maxev=4, others=('p1',), invariants=None, props=None):
-    c = ('CONSTANTS\n Runtime = %d\n MaxNow = %d\n Me = "p0"\n Others = {%s}\n MaxEvents = %d\n'
-         % (runtime, maxnow, ', '.join('"%s"' % o for o in others), maxev))
-    for d in DEVS:
+    c = ('CONSTANTS\n Runtime = %d\n MaxNow = %d\n Me = "p0"\n Others = {%s}\n MaxEvents = %d\n NFin = %d\n'
+         % (runtime, maxnow, ', '.join('"%s"' % o for o in others), maxev, NFIN))
+    for d in DEVS_ALL:
         c += ' %s = %s\n' % (d, 'TRUE' if d in devs else 'FALSE')
     c += 'SPECIFICATION Spec\nCHECK_DEADLOCK FALSE\n'
     for i in (INVARIANTS if invariants is None else invariants):
@@ -35,16 +48,76 @@ def mc_cfg(runtime, devs=(), maxnow=3, maxev=4, others=('p1',), invariants=None,
 
 
 # ------------------------------------------------------------------------------
-def script_from_behaviour(path):
-    script = []
+class Kinds(object):
+    '''turns "steps F of finalize fail" into what the rig is to arrange; the number
+       of runs which need the real tar is bounded (a run costs 20-40 ms)'''
+
+    def __init__(self, rng, tar_budget):
+        self.rng, self.tar = rng, tar_budget
+
+    def opts(self, fail, during=()):
+        rng, env, rs = self.rng, {}, []
+        if 1 in fail:
+            kind = rng.choice(['missing_file', 'missing_dir', 'empty', 'tgz_is_dir', 'missing_file', 'raise'])
+            if self.tar <= 0:
+                kind = 'raise'
+            self.tar -= 1
+            if kind == 'raise':
+                env['list'] = 'ok'
+                rs.append('sh_callout')
+            else:
+                env['list'] = kind
+        else:
+            env['list'] = rng.choice(['none'] * 5 + ['tgz_exists', 'ok' if self.tar > 0 else 'none'])
+            if env['list'] == 'ok':
+                self.tar -= 1
+        # the usage report has no real way to fail: a raising helper (verdicts of such runs are notes
+        # only, so it is drawn rarely not to mask the real faults of the same run)
+        if 2 in fail and rng.random() < 0.3:
+            rs.append('get_rusage')
+        if 3 in fail:
+            kind = rng.choice(['dir', 'binary', 'dir', 'binary', 'raise'])
+            env['tails'] = 'files' if kind == 'raise' else kind
+            if kind == 'raise':
+                rs.append('ru_open')
+        else:
+            env['tails'] = rng.choice(['none', 'files'])
+        o = {'env': env}
+        if rs:
+            o['raise'] = rs
+        if during:
+            o['during'] = [list(x) for x in during]
+        return o
+
+
+def script_from_behaviour(path, kinds):
+    script, fin = [], None           # fin: [fail set, events during the steps] of a begun finalize
     for act, args, st in tlc.parse_sim_file(path):
-        if   act == 'Tick'         : script.append(['tick', st['now']])
-        elif act == 'LifetimeCheck': script.append(['lifetime'])
-        elif act == 'CancelCmd'    : script.append(['cancel', [IDS[u] for u in re.findall(r'"(\w+)"', args)]])
-        elif act == 'TerminateCmd' : script.append(['terminate'])
-        elif act == 'Stop'         : script.append(['stop'])
-        elif act == 'Finalize'     : script.append(['finalize'])
-        elif act == 'Boot'         : script.append(['boot'])
+        step = None
+        if   act == 'Tick'         : step = ['tick', st['now']]
+        elif act == 'LifetimeCheck': step = ['lifetime']
+        elif act == 'CancelCmd'    : step = ['cancel', [IDS[u] for u in re.findall(r'"(\w+)"', args)]]
+        elif act == 'TerminateCmd' : step = ['terminate']
+        elif act == 'Stop'         : step = ['stop']
+        elif act == 'FinBegin'     :
+            fin = [sorted(int(x) for x in st['ffail']), []]
+            if st['fph'] == 'aborted':               # only with DevFinAbort
+                script.append(['finalize', kinds.opts(fin[0])])
+                fin = None
+        elif act == 'FinPublish'   :
+            script.append(['finalize', kinds.opts(fin[0], fin[1])])
+            fin = None
+        elif act == 'Boot'         :
+            # a finalize which had not published when the bootstrapper took over: the
+            # agent was killed before the publication - as if it had not begun
+            if fin:
+                script.extend(fin[1])
+                fin = None
+            script.append(['boot'])
+        if step:
+            (fin[1] if fin else script).append(step)
+    if fin:
+        script.append(['finalize', kinds.opts(fin[0], fin[1])])
     if not script or script[-1] != ['boot']:
         script.append(['boot'])
     return script
@@ -92,6 +165,46 @@ def small_scope(maxlen, runtimes=(0, 1, 2)):
         yield runtime, [['boot']]                      # the agent died before finalize
 
 
+# every kind of fault of a step of finalize, one at a time
+FAULT_KINDS = ([{'env': {'list': l}} for l in A.LISTS] +
+               [{'env': {'list': 'ok'}, 'raise': ['sh_callout']},
+                {'env': {'list': 'missing_file'}, 'raise': ['sh_callout']},
+                {'raise': ['get_rusage']},
+                {'env': {'tails': 'files'}}, {'env': {'tails': 'dir'}}, {'env': {'tails': 'binary'}},
+                {'env': {'tails': 'files'}, 'raise': ['ru_open']}])
+# a way to get to finalize for every termination cause: (runtime, events before)
+CAUSES = [(0, []), (2, [['tick', 2], ['lifetime']]), (0, [['cancel', [A.ME]]]), (0, [['terminate']]),
+          (0, [['stop']]), (0, [['cancel', [A.OTHERS[0]]]]),
+          (2, [['tick', 2], ['lifetime'], ['cancel', [A.ME]]]),
+          (2, [['cancel', [A.ME]], ['tick', 2], ['lifetime']])]
+# commands which arrive while the steps of finalize run
+DURING = [[['cancel', [A.ME]]], [['terminate']], [['cancel', [A.OTHERS[0]]]], [['tick', 2], ['lifetime']]]
+
+
+def fault_matrix(thorough):
+    # helpers of this tree's finalize() beyond the ones named above: each is a step which can raise
+    extra = [{'env': {'list': 'ok', 'tails': 'files'}, 'raise': [h]}
+             for h in A.helpers_of_finalize() if h not in A.STEP_OF]
+    for runtime, pre in CAUSES:
+        for kind in FAULT_KINDS + extra:
+            yield runtime, pre + [['finalize', dict(kind)], ['boot']]
+    for runtime, pre in ((0, []), (0, [['stop']]), (2, []), (2, [['terminate']])):
+        for during in DURING:
+            if during[-1] == ['lifetime'] and not runtime:
+                continue
+            for kind in ({}, {'env': {'list': 'missing_file'}}, {'env': {'tails': 'dir'}}):
+                yield runtime, pre + [['finalize', dict(kind, during=during)], ['boot']]
+    if thorough:
+        for runtime, pre in CAUSES:
+            for k1, k2 in itertools.combinations(FAULT_KINDS, 2):
+                env = dict(k1.get('env', {}))
+                if set(env) & set(k2.get('env', {})):
+                    continue
+                env.update(k2.get('env', {}))
+                yield runtime, pre + [['finalize', {'env': env, 'raise': k1.get('raise', []) + k2.get('raise', [])}],
+                                      ['boot']]
+
+
 # ------------------------------------------------------------------------------
 CLASSES = {'timeout': 'lifetime reached first', 'cancel': 'cancel naming this pilot first',
            'terminate': 'termination command first', 'stop': 'stop() first',
@@ -111,7 +224,20 @@ def first_reason(trace):
     return 'none'
 
 
+def faults_of(trace):
+    return sorted(f for e in trace['events'] if e['ev'] == 'FinBegin' for f in e['faults'])
+
+
 def classify(trace, clause):
+    '''runs without a fault during termination: the termination cause; with
+       faults: the failing step (the cause does not matter: known findings name
+       the step) - a helper which raises before one which merely fails'''
+    faults = faults_of(trace)
+    raises = [f for f in faults if f.endswith(':raise')]
+    if raises:
+        return 'finalize: a helper of step %s raises' % raises[0].split(':')[0]
+    if faults:
+        return 'finalize: step %s fails (%s)' % tuple(faults[0].split(':'))
     return CLASSES[first_reason(trace)]
 
 
@@ -123,22 +249,38 @@ def validate(chk, inputs, boots):
     chk.states += st['states']
     chk.transitions += st['transitions']
     chk.cmds.append(st['cmd'])
+    notes = {}
     for inp, tr, errs in zip(inputs, traces, res):
         chk.traces += 1
         kinds = tuple(e['ev'] for e in tr['events'])
         if first_reason(tr) != 'none' and len(kinds) > 2:
-            chk.nontrivial.add((tr['runtime'] > 0, first_reason(tr), kinds))
+            chk.nontrivial.add((tr['runtime'] > 0, first_reason(tr), kinds, tuple(faults_of(tr))))
         bad = [e for e in errs if e.split('.')[0] == 'X']
         if bad:
             raise Machinery('agentlife rig produced a malformed trace: %s %s' % (bad, tr))
+        # a helper made to raise OSError stands for resource exhaustion of the operating system
+        # (EMFILE / EAGAIN): then the publication itself cannot be guaranteed either, which is more
+        # than C14 states - what such a run shows is recorded as a note (N.*), not as a violation
+        injected = [f for f in faults_of(tr) if f.endswith(':raise')]
         for err in errs:
             if err.split('.')[0] != chk.pid:
                 continue
+            if injected:
+                key = 'N.%s / %s' % (err.split('.', 1)[1], classify(tr, err))
+                notes[key] = notes.get(key, 0) + 1
+                continue
             fin = [e for e in tr['events'] if e['ev'] == 'Finalize']
-            chk.violation(err, classify(tr, err),
-                          'real Agent_0: %s, final state %s' % (classify(tr, err),
-                                                                 fin[0]['advanced'] if fin else '-'),
+            what = 'real Agent_0: %s, final state %s' % (CLASSES[first_reason(tr)],
+                                                         fin[0]['advanced'] if fin else '-')
+            if faults_of(tr):
+                what += '; during finalize: %s; finalize raised: %s; final states published: %d' % (
+                    ', '.join(faults_of(tr)), fin[0]['raised'] if fin else '-', fin[0]['npub'] if fin else 0)
+            chk.violation(err, classify(tr, err), what,
                           {'rig': 'agentlife', 'input': inp, 'errs': errs, 'trace': tr})
+    for key in sorted(notes):
+        chk.notes.append('%s: %d run(s) - a helper raising OSError (injected, stands for OS resource exhaustion) '
+                         'leaves finalize() before killme.signal is written and the final state is published; '
+                         'not a violation of C14' % (key, notes[key]))
     return traces, res
 
 
@@ -159,16 +301,17 @@ def run(chk, tier, seed):
 
     # ---- 2. deviation sensitivity ----------------------------------------------
     if not quick:
-        for dev in DEVS:
+        for dev in DEVS_ALL:
             res = tlc.run('AgentLife', 'AgentLife', 'MC.cfg', workers=8, timeout=600,
                           extra_files=mc_cfg(2, devs=[dev]))
             chk.add_tlc(res, 'deviation:' + dev)
-            if res.violated != 'InvRightReason':
+            if res.violated != EXPECT[dev]:
                 raise Machinery('deviation %s not detected by the model (got %s)' % (dev, res.violated))
-            chk.notes.append('deviation %s breaks InvRightReason in the design model' % dev)
+            chk.notes.append('deviation %s breaks %s in the design model' % (dev, EXPECT[dev]))
 
     # ---- 3. TLC behaviours -> event sequences for the real agent ------------------
     inputs, boots, seen = [], [], set()
+    kinds = Kinds(rng, 90 if quick else 1500)
 
     def add(kind, runtime, script, boot):
         k = repr((runtime, script))
@@ -182,38 +325,56 @@ def run(chk, tier, seed):
         dump = tlc.scratch('rpsim_')
         try:
             res = tlc.run('AgentLife', 'AgentLife', 'MC.cfg', workers=1, timeout=600,
-                          simulate='num=%d' % (500 if quick else 8000), depth=14,
+                          simulate='num=%d' % (300 if quick else 8000), depth=16,
                           seed=rng.randrange(10 ** 6), dump_dir=dump,
                           extra_files=mc_cfg(runtime, devs=DEVS, others=('p1',), maxev=5,
                                              invariants=['TypeOK'], props=[]))
             chk.add_tlc(res, 'simulate:runtime=%d' % runtime)
             for f in tlc.sim_files(dump):
-                add('tlc-behaviour', runtime, script_from_behaviour(f),
-                    len(inputs) < (250 if quick else 3000))
+                add('tlc-behaviour', runtime, script_from_behaviour(f, kinds),
+                    len(inputs) < (150 if quick else 3000))
         finally:
             shutil.rmtree(dump, ignore_errors=True)
     n_tlc = len(inputs)
 
     # ---- 4. small scope, exhaustive ---------------------------------------------------
     for runtime, script in small_scope(3 if quick else 4):
-        add('small-scope', runtime, script, rng.random() < (0.1 if quick else 0.02))
+        add('small-scope', runtime, script, rng.random() < (0.05 if quick else 0.02))
     n_small = len(inputs) - n_tlc
 
+    # ---- 4b. every kind of fault of a step of finalize x every termination cause ----------
+    for runtime, script in fault_matrix(not quick):
+        add('finalize-fault', runtime, script, rng.random() < (0.3 if quick else 0.1))
+    n_fault = len(inputs) - n_tlc - n_small
+
     # ---- 5. seeded random sequences -----------------------------------------------------
-    for _ in range(400 if quick else 12000):
-        runtime, script = A.random_script(rng)
+    kinds = Kinds(rng, 30 if quick else 1500)
+    for _ in range(300 if quick else 12000):
+        runtime, script = A.random_script(rng, kinds)
         add('random', runtime, script, rng.random() < 0.1)
-    n_rand = len(inputs) - n_tlc - n_small
+    n_rand = len(inputs) - n_tlc - n_small - n_fault
 
     # ---- 6. run the real agent, validate every trace --------------------------------------
     traces, res = validate(chk, inputs, boots)
     chk.evaluations = len(inputs)
-    chk.notes.append('event sequences: %d from TLC behaviours, %d small-scope, %d random; '
-                     'bootstrap tail evaluated for %d of them'
-                     % (n_tlc, n_small, n_rand, sum(1 for b in boots if b)))
+    chk.notes.append('event sequences: %d from TLC behaviours, %d small-scope, %d fault-during-finalize matrix, '
+                     '%d random; bootstrap tail evaluated for %d of them'
+                     % (n_tlc, n_small, n_fault, n_rand, sum(1 for b in boots if b)))
+    with_fault = [t for t in traces if faults_of(t)]
+    chk.notes.append('finalize with a failing step: %d runs (%d with the real tar exiting non-zero, %d with a '
+                     'helper raising, %d with commands arriving meanwhile); steps seen in finalize: %s'
+                     % (len(with_fault),
+                        sum(1 for t in with_fault if any(f.startswith('stage:') and not f.endswith(':raise')
+                                                         for f in faults_of(t))),
+                        sum(1 for t in with_fault if any(f.endswith(':raise') for f in faults_of(t))),
+                        sum(1 for i_, t in zip(inputs, traces)
+                            if any(st[0] == 'finalize' and len(st) > 1 and st[1].get('during')
+                                   for st in i_['script'])),
+                        sorted(set(x for t in traces for e in t['events'] if e['ev'] == 'FinBegin'
+                                   for x in e.get('steps', [])))))
     if A.boot_fragment() is None:
         chk.notes.append('the tail of bootstrap_0.sh could not be isolated safely: Boot events skipped')
-    for i in (0, n_tlc, n_tlc + n_small):
+    for i in (0, n_tlc, n_tlc + n_small, n_tlc + n_small + 9):
         if i < len(traces):
             chk.sample({'input': inputs[i], 'events': traces[i]['events'][:8], 'verdict': res[i]})
     chk.assumptions += [
@@ -222,7 +383,14 @@ def run(chk, tier, seed):
         'a bare termination command / stop() (neither a lifetime nor a cancel naming this pilot) '
         'may end in CANCELED or FAILED',
         'the bootstrapper is represented by the last lines of bootstrap_0.sh which read '
-        'killme.signal; the rest of the script is not executed']
+        'killme.signal; the rest of the script is not executed',
+        'faults during termination are REAL conditions of the steps finalize() runs BEFORE it publishes: what the '
+        'sandbox holds for the real tar (listed file / directory missing, empty list, tarball cannot be created) and '
+        'for the log tails (directory, not UTF-8), commands arriving meanwhile; the logger, the profiler and the '
+        'publication itself (write of killme.signal, advance) do not fail',
+        'helper functions of agent_0.py made to raise OSError (operating system resource exhaustion) are run as an '
+        'extra dimension; what they show is reported as notes N.*, never as a violation: under that condition the '
+        'publication cannot be guaranteed either and C14 does not speak about it']
 
 
 def replay(chk, obj):
